@@ -3,6 +3,7 @@ package props
 import (
 	"go/ast"
 	"go/types"
+	"strings"
 
 	"verifcheck/an"
 )
@@ -16,7 +17,7 @@ func init() {
 			"the two existence predicates of the start-up recovery pass recognise both the temporary and the final name of a logged file; NOT decided: that rewriting loses, duplicates or reorders no row (value-level), planner optimality.",
 		Assumptions: commonAssumptions,
 		Technique:   "static analysis: must-precede / never-after / post-dominance cuts on go/cfg, lockset dataflow, who-may-call tables",
-		Rules:       "C03.R1 R1b R2 R3 R4 R5 R6 R7",
+		Rules:       "C03.R1 R1b R2 R3 R4 R5 R6 R7 R8",
 	}
 }
 
@@ -217,6 +218,9 @@ func c03(c *an.Ctx) {
 			done := f.Find(call(r, I+":MmsTables.CompactDone"))
 			if !r.Failed() {
 				f.FollowedByOnSuccess(r, prep, done, nil, "mergePrepare(true) ⇒ CompactDone on every exit")
+				// and only then: a merge that was REFUSED the files (another compaction owns them) must not
+				// clear the in-compaction marks — also not through a clean-up deferred before the refusal
+				f.Precedes(r, prep, done, an.OrderOpt{Success: true, DeferredB: true, Label: "CompactDone (also a deferred one) is set up only after mergePrepare succeeded"})
 			}
 		}
 		if f := fn(r, I+":mergeTool.mergePrepare"); f != nil {
@@ -264,6 +268,30 @@ func c03(c *an.Ctx) {
 				f.FollowedBy(r, ref, unref, nil, "refMmsTable ⇒ unrefMmsTable on every exit")
 			}
 		}
+	}
+	// ---------------------------------------------------------------- R8
+	{
+		// The out-of-order merge interleaves several ordered files per series; MergePerformers.Less orders
+		// the per-file iterators positioned on the same series by the min time of their CURRENT chunk.
+		// The iterator caches (sid, minTime) of the chunk it stands on: both are refreshed together
+		// whenever it advances, from that chunk's metadata — a file-level bound or a stale value lets a
+		// later file absorb rows that belong before an earlier one (series out of order across files).
+		r := c.Rule("C03.R8", "K-PROVENANCE", I+":(*ColumnIterator).NextChunkMeta — the cached series id and min time are both refreshed from the chunk the iterator advanced to; nothing else writes them")
+		sidF, minF := obj(r, I+":ColumnIterator.sid"), obj(r, I+":ColumnIterator.minTime")
+		if f := fn(r, I+":ColumnIterator.NextChunkMeta"); f != nil && !r.Failed() {
+			fromChunk := func(g *an.Fn, e ast.Expr) bool {
+				return strings.Contains(g.Canon(e), "recv.fi.GetCurtChunkMeta()")
+			}
+			sidSt := f.Find(an.MStore("itr.sid = <current chunk>.sid", sidF, fromChunk))
+			minSt := f.Find(an.MStore("itr.minTime = <current chunk>.minTime()", minF, fromChunk))
+			r.AddSites(sidSt.Len() + minSt.Len())
+			if sidSt.Len() == 0 || minSt.Len() == 0 {
+				r.Fail(f.Name+": refresh", c.P.Pos(f.Body.Pos()), "NextChunkMeta no longer refreshes both the series id and the min time from the current chunk metadata (sid stores %d, minTime stores %d)", sidSt.Len(), minSt.Len())
+			}
+		}
+		allowed := an.Allowed{I + ":(*ColumnIterator).NextChunkMeta": "refresh on advance"}
+		c.WhoWrites(r, sidF, "ColumnIterator.sid", allowed, nil)
+		c.WhoWrites(r, minF, "ColumnIterator.minTime", allowed, nil)
 	}
 	// ---------------------------------------------------------------- R5
 	{
